@@ -5,13 +5,35 @@ from analysis import cfg
 from analysis.sym import sym, show_in, nosite, peel, core, walk, ret_values, args_of, guards_at, atoms_at, \
     variant_facts_at, cmp_facts_at, init_value, edge_guards, symbolizer, simplify
 from analysis.pat import match, Call, Cap, ANY, Pred, Const, has, chain_names
-from rules.common import closure_of, panic_sites, dominated_by_edge
+from rules.common import closure_of, panic_sites, dominated_by_edge, V, receiver_var, local_defs, stores_to_local
 
 WS = 'unicode::Character::is_whitespace'
 
 
 def _var(name):
     return Pred(lambda t: t[0] == 'var' and t[1] == name)
+
+
+def _counters(b, loop):
+    """(from_ptr local, to_ptr local): the counter tested in the loop header against the length, and the other counter
+    that is advanced inside the loop"""
+    fp = None
+    for g in edge_guards(b):
+        if g.block in loop.blocks and g.target not in loop.blocks:
+            t = core(g.atom()[0])
+            if t[0] == 'bin' and t[1] == 'Lt' and t[2][0] == 'var' and match(t[3], Call('Vec::len', ANY)):
+                fp = t[2][2]
+    if fp is None:
+        raise AnchorMissing('loop counter compared with the length in the header of the alignment loop')
+    others = set()
+    for s in b.stmts():
+        if s.bb in loop.blocks and s.kind == 'assign' and not s.lhs.proj and s.lhs.local != fp and b.var_name(s.lhs.local):
+            v = core(simplify(symbolizer(b).rvalue(s.rv, 0, ())))
+            if v[0] == 'bin' and v[1] == 'Add' and v[2][0] == 'var' and v[2][2] == s.lhs.local:
+                others.add(s.lhs.local)
+    if len(others) != 1:
+        raise AnchorMissing('the target-side counter of the alignment loop (found %d candidates)' % len(others))
+    return fp, list(others)[0]
 
 
 def _stores_to(b, name):
@@ -48,10 +70,11 @@ def r1(ctx):
         exits = [e for e in loop.exits(b)]
         via = [(u, w) for (u, w) in exits]
         ctx.require(cfg.must_pass(b, 0, blk, via_edges=via), b, 'ok-after-loop', 'Ok(..) is reached only through an exit of the alignment loop', None)
+    fp, tp = _counters(b, loop)
     # loop exits: header condition false, or Err return
     for (u, w) in loop.exits(b):
         g = [g for g in edge_guards(b) if g.block == u and g.target == w]
-        is_hdr = bool(g) and g[0].atom()[1] is False and match(g[0].atom()[0], ('bin', 'Lt', _var('from_ptr'), Call('Vec::len', ANY)))
+        is_hdr = bool(g) and g[0].atom()[1] is False and match(core(g[0].atom()[0]), ('bin', 'Lt', V(fp), Call('Vec::len', ANY)))
         if is_hdr:
             ctx.ok(b, 'loop exit bb%d->bb%d is from_ptr >= from_chars.len()' % (u, w), b.blocks[u].term.span)
             continue
@@ -62,8 +85,8 @@ def r1(ctx):
         ctx.require(not to_ok, b, 'other-exit-is-err', 'the other loop exit (bb%d->bb%d) leads to Err only' % (u, w),
                     'loop exit bb%d->bb%d leaves the alignment early and still returns Ok' % (u, w), b.blocks[u].term.span)
     # one push per iteration path; from_ptr += 1 on every path to the back edge
-    incs = [(s, v) for s, v in _stores_to(b, 'from_ptr') if s.bb in loop.blocks]
-    ok = len(incs) == 1 and match(core(incs[0][1]), ('bin', 'Add', _var('from_ptr'), Const(1)))
+    incs = [(s, v) for s, v in stores_to_local(b, fp) if s.bb in loop.blocks]
+    ok = len(incs) == 1 and match(core(incs[0][1]), ('bin', 'Add', V(fp), Const(1)))
     ctx.require(ok, b, 'from-ptr-step', 'from_ptr := from_ptr + 1, once per iteration', 'from_ptr updates in the loop: %s' % [show_in(b, v) for _, v in incs])
     if ok:
         body_entry = [w for w in b.succ[loop.header] if w in loop.blocks]
@@ -86,7 +109,13 @@ def r2(ctx):
     pushes = [t for t in b.calls(r'Vec::push$') if 'whitespace::Operation' in b.local_ty(t.args[0].place.local)]
     loop = cfg.innermost_loop(b, pushes[0].bb)
     seen = {}
-    tp = [(s, v) for s, v in _stores_to(b, 'to_ptr') if s.bb in loop.blocks]
+    fpl, tpl = _counters(b, loop)
+    tp = [(s, v) for s, v in stores_to_local(b, tpl) if s.bb in loop.blocks]
+
+    def derives(u, ptr):
+        """tree u reads the character vector at position `ptr`"""
+        return has(u, ('index', ANY, V(ptr))) or any(isinstance(x, tuple) and x and x[0] == 'var' and
+                                                      any(has(core(dv), ('index', ANY, V(ptr))) for _, dv in local_defs(b, x[2])) for x in walk(u))
     for p in pushes:
         v = sym(b, p.args[1])
         if not (v[0] == 'agg' and v[1] == 'adt'):
@@ -98,7 +127,7 @@ def r2(ctx):
         # to_ptr step reachable from this push within the iteration
         steps = [(s, val) for s, val in tp if s.bb in cfg.reach(b, p.bb, removed_blocks=[loop.header])]
         inc = None
-        if len(steps) == 1 and match(core(steps[0][1]), ('bin', 'Add', _var('to_ptr'), Pred(lambda t: t[0] == 'const'))):
+        if len(steps) == 1 and match(core(steps[0][1]), ('bin', 'Add', V(tpl), Pred(lambda t: t[0] == 'const'))):
             inc = core(steps[0][1])[3][2]
         elif not steps:
             inc = 0
@@ -106,11 +135,10 @@ def r2(ctx):
             g = any(pol is True and t[0] == 'bin' and t[1] == 'Eq' for t, pol in atoms)
             want = 1
         elif name == 'Insert':
-            g = any(pol is True and match(t, Call(WS, Pred(lambda u: has(u, _var('to_char')) or has(u, Call('Vec::index', ANY, _var('to_ptr')))))) for t, pol in atoms) or \
-                any(pol is True and match(t, Call(WS, ANY)) and 'to_' in show_in(b, t) for t, pol in atoms)
+            g = any(pol is True and match(t, Call(WS, Pred(lambda u: derives(u, tpl)))) for t, pol in atoms)
             want = 2
         elif name == 'Delete':
-            g = any(pol is True and match(t, Call(WS, ANY)) and 'from_' in show_in(b, t) for t, pol in atoms)
+            g = any(pol is True and match(t, Call(WS, Pred(lambda u: derives(u, fpl)))) for t, pol in atoms)
             want = 0
         else:
             ctx.fail(b, 'unknown-op', 'unknown operation %s' % name, p.span)
@@ -207,7 +235,9 @@ def r3(ctx):
                                                                               re.search(r'::(rev|skip|step_by|filter|take)$', s[1])]
     ctx.require(ok, b, 'zip-in-order', 'characters and operations are paired in order (zip, no reordering adaptor)', None)
     oks = [v for v, blk in ret_values(b) if v[0] == 'agg' and v[2].endswith('Result::Ok')]
-    ctx.require(len(oks) == 1 and match(core(oks[0][3][0]), _var('output')), b, 'result', 'Ok(output)', None)
+    outv = receiver_var(b, cp[0]) if cp else None
+    ctx.require(len(oks) == 1 and outv is not None and match(core(oks[0][3][0]), V(outv)) and all(receiver_var(b, t) == outv for t in cp + lit), b, 'result',
+                'Ok(the string all pushes went to)', None)
 
 
 @rule('C10', 'R-C10-4', 'T11 SIBLING (whitespace predicate)',
